@@ -69,7 +69,7 @@ func isAllocatedNonPreemptibleOverQuota(
 		if !found || requestedQty == 0 {
 			continue
 		}
-		if resourceShare.Deserved < resourceShare.AllocatedNotPreemptible+requestedQty {
+		if exceeds(resourceShare.AllocatedNotPreemptible+requestedQty, resourceShare.Deserved) {
 			return true, resource
 		}
 	}
